@@ -827,6 +827,8 @@ package server
 //@     assert [C07,C19,C04,C14:dataset-leaves-both-registries-before-its-record-is-removed] unregG == 2
 //@   at call storeEntity#1 before
 //@     assert [C07,C19:core-entity-written-after-the-dataset-left-the-registries] unregG == 2 && $recordsDeleted == old($recordsDeleted) + 1
+//@   at call GetEntity#1 before
+//@     assert [C19:meta-entity-looked-up-in-core-dataset-only-so-the-tombstone-is-the-meta-entity-and-nothing-merged-into-it] len(datasets) == 1 && datasets[0] == "core.Dataset" && mergePartials
 //@   at call GetEntity#1
 //@     assume [TRUSTED-data-invariant:every-registered-dataset-has-a-meta-entity-in-core-dataset] $result1 == nil ==> $result0 != nil
 //@   loop 1
@@ -1031,6 +1033,7 @@ package server
 //@     assert [C14:registry-maps-the-new-name-to-the-renamed-dataset] movedG && cast(key, "string") == newName && cast(value, "*server.Dataset") == ds
 //@   at call GetEntity#1 before
 //@     assert [C19:meta-entity-of-the-old-name-is-looked-up] uri == dsInfo.DatasetPrefix + ":" + name
+//@     assert [C19:meta-entity-looked-up-in-core-dataset-only-so-no-other-datasets-partial-bleeds-into-the-counter] len(datasets) == 1 && datasets[0] == "core.Dataset" && mergePartials
 //@   at call GetEntity#1
 //@     assume [TRUSTED-data-invariant:every-registered-dataset-has-a-meta-entity-in-core-dataset] $result1 == nil ==> $result0 != nil
 //@   at call IsDataset#2
@@ -1328,7 +1331,7 @@ package server
 
 // the per-entity decision of the completion pass: exactly the live entities the sync did not see are tombstoned
 //@ unit (*Dataset).CompleteFullSync$2
-//@   prop C09
+//@   prop C09 C08
 //@   ghost flushedG bool = false
 //@   ghost inFlushedG bool = false
 //@   requires e != nil && ds != nil && ds.store != nil && !has($held, addrOf(ds.WriteLock))
